@@ -7,7 +7,7 @@
    PARTIAL: the constructors of stochastic objects and molecules are not modelled; their rejection rules and
    termination are checked on the malformed stream (breaking operators, byte-level mutations, 2 s limit). *)
 From Coq Require Import List ZArith QArith Ascii String Bool.
-From GBS Require Import Model.PyStr Model.Num Model.Bond Model.Token Model.SysSplit Model.DistFam Src.SrcDist Proofs.TotalP Proofs.DistP Model.Stoch Proofs.StochP.
+From GBS Require Import Model.PyStr Model.Num Model.Bond Model.Token Model.SysSplit Model.DistFam Src.SrcDist Proofs.TotalP Proofs.DistP Model.Stoch Proofs.StochP Model.Mol Proofs.MolP.
 Import ListNotations.
 Open Scope Z_scope.
 
@@ -72,6 +72,11 @@ Theorem C15_object_needs_opening_brace : forall (valid_atom : str -> bool) text,
   (forall c rest, strip text = c :: rest -> c <> ch "{") -> forall s, parse_stoch valid_atom text <> OK s.
 Proof. exact parse_stoch_needs_braces. Qed.
 Print Assumptions C15_object_needs_opening_brace.
+
+(* molecules (Model/Mol.v): the while loop over '{' terminates -- the fuel the model gives it is never exhausted -- for every text *)
+Theorem C15_molecule_parse_total : forall (valid_atom : str -> bool) (fprint : num -> str) text, is_fuel (parse_molecule valid_atom fprint text) = false.
+Proof. exact parse_molecule_total. Qed.
+Print Assumptions C15_molecule_parse_total.
 
 Example C15_example :
   (exists m, parse_token (fun _ => true) (lit "C[$]C") 0 = Err ERuntime m) /\
